@@ -213,10 +213,10 @@ CLAIMS['C05'].update(
     text=CLAIMS['C05']['text'])
 CLAIMS['C06'].update(
     technique=CLAIMS['C06']['technique'] + '; per-path effect of the digit loops; word-level algebraic value numbering of decompose_lambda and PowersOfX::decompose (division by a constant modelled by a == d*q + rem, ordered subtraction by the compare fact)',
-    text='Decided: order-r-only multiplications are unreachable from code handling points outside the subgroup; recoding overflow repaired; digit reads guarded; extents; GLV / Frobenius constants; tables, streams and the per-digit accumulator updates of the interleaved loops (signs included); decompose_lambda returns (c0, c1, signs) with (+-c0) + lambda(+-c1) == k (mod r) identically in k on every path (all five configurations); PowersOfX::decompose returns digits with sum c_i |x|^i == y (mod r) identically in y on every path (64-bit-word configurations). Not decided: the w-NAF recoding as a value (digits sum to the scalar), the bit-serial division of the 32-bit-word configurations.')
+    text='Decided: order-r-only multiplications are unreachable from code handling points outside the subgroup; recoding overflow repaired; digit reads guarded; extents; GLV / Frobenius constants; tables, streams and the per-digit accumulator updates of the interleaved loops (signs included); decompose_lambda returns (c0, c1, signs) with (+-c0) + lambda(+-c1) == k (mod r) identically in k on every path (all five configurations); PowersOfX::decompose returns digits with sum c_i |x|^i == y (mod r) identically in y on every path (all five configurations; where no 128-bit type exists the 64-step restoring division is decided as an inductive step per bit position and summarised). Not decided: the w-NAF recoding as a value (digits sum to the scalar).')
 CLAIMS['C07'].update(
     technique='static analysis: exponent-domain value numbering of the simultaneous and generic exponentiation routines (digit bits as symbols, Frobenius images as powers of x modulo r); span check of the cyclotomic squaring; word-level algebraic value numbering of PowersOfX::decompose; rejection-loop rule for the random exponent; constant relations; interval rule on the bit-scan loop',
-    text='Decided for all inputs: exponentiate_gt returns a^(sum of bit_i(c_j) 2^i |x|^j) with every one of the 256 digit bits used (distinct and aliased result), the generic routines weight bit i by 2^i, the fast squaring is a*a on the cyclotomic subgroup; PowersOfX::decompose recombines to the exponent modulo r on every path (y < r, y == r, y > r; 64-bit-word configurations), the discarded upper quotient words being zero by range; the random exponent is rejection-sampled below |x| per digit and below r overall and recombined with |x|^k. Not decided: the bit-serial division of the 32-bit-word configurations, uniformity as a distribution.',
+    text='Decided for all inputs: exponentiate_gt returns a^(sum of bit_i(c_j) 2^i |x|^j) with every one of the 256 digit bits used (distinct and aliased result), the generic routines weight bit i by 2^i, the fast squaring is a*a on the cyclotomic subgroup; PowersOfX::decompose recombines to the exponent modulo r on every path (y < r, y == r, y > r; all five configurations, the restoring division of the 32-bit-word ones decided as an inductive step), the discarded upper quotient words being zero by range; the random exponent is rejection-sampled below |x| per digit and below r overall and recombined with |x|^k. Not decided: uniformity as a distribution.',
     note='tower operations are the field operations (C04); q = x and q^6 = -1 modulo r on the order-r subgroup are the facts used')
 for _p in ('C11', 'C12', 'C13', 'C14'):
     CLAIMS[_p].update(
